@@ -106,7 +106,8 @@ class SimAllocator:
         _grc = sys.getrefcount
 
         def sim_id(o: Any) -> int:
-            return _id(o, _grc(o) - 1)
+            rc = _grc(o) - 1  # evaluated before `o` is pushed as a call argument
+            return _id(o, rc)
 
         return sim_id
 
@@ -188,6 +189,20 @@ class SimClock:
         self._sched: List[List[Any]] = []  # [reads_left, kind, arg]
         self.max_seen = t0
         self.went_back = False
+        self._w_first = None
+        self._w_max = None
+
+    def begin_window(self) -> None:
+        self._w_first: Optional[float] = None
+        self._w_max: Optional[float] = None
+
+    def window_elapsed(self) -> Optional[float]:
+        """Largest (later read - earlier read) over all pairs of reads since begin_window(): an upper
+        bound on what any `time.time() - start` inside the window can have evaluated to, whichever
+        read served as `start` (several calls, backward jumps). None if no read."""
+        if getattr(self, "_w_first", None) is None:
+            return None
+        return self._w_max  # type: ignore[return-value]
 
     def set_tick(self, dt: float) -> None:
         self.tick = float(dt)
@@ -229,6 +244,15 @@ class SimClock:
         else:
             self.now += self.tick
             self.sim.sim_seconds += self.tick
+        # window bookkeeping: _w_first = smallest read so far, _w_max = largest (later read - earlier read)
+        if getattr(self, "_w_first", None) is None:
+            self._w_first = self.now
+            self._w_max = 0.0
+        else:
+            if self.now - self._w_first > self._w_max:  # type: ignore[operator]
+                self._w_max = self.now - self._w_first  # type: ignore[operator]
+            if self.now < self._w_first:  # type: ignore[operator]
+                self._w_first = self.now
         if self.now < self.max_seen:
             self.went_back = True
             self.sim.probe("clock_went_backwards")
